@@ -125,6 +125,7 @@ def execute(seed, mode, workdir):
         storages.append(s)
     admin = make_storage(url, None)
     try:
+        common.decoy(admin, seed % 3)
         study0 = optuna.create_study(storage=admin, study_name="hb", sampler=optuna.samplers.RandomSampler(seed=seed))
 
         def pk(ft):
